@@ -14,6 +14,7 @@
 import NemoVerif.Lemmas.CoreIndex
 import NemoVerif.Lemmas.CoreVM
 import NemoVerif.Lemmas.CoreVMNoStopping
+import NemoVerif.Lemmas.CoreVMParked
 
 namespace NemoVerif.C09
 open NemoVerif.CoreIndex
@@ -407,6 +408,32 @@ theorem quiescent_partial_no_assertion (fuel : Nat) (ev : Match.Ev) (s s' : VM) 
     ∧ (∀ f i, findInst s'.ixs.ix f = some i → i.status.done = true → i.heads = [])
     ∧ (∀ k nm, reg s'.ixs.ix k = some nm → ∃ i, findInst s'.ixs.ix k.1 = some i ∧ (i.findHead k.2).isSome) :=
   quiescent_partial fuel ev s s' (no_stopping_at_exit fuel ev s s' h0 h).2
+
+/-! ## `Parked` / `PendingCovers` — definitions and the part carried so far (phase 4) -/
+
+/-- with an empty worklist, the worklist invariant is the `Parked` clause of the property -/
+theorem pending_covers_with_empty_worklist_is_parked (s : VM) : PendingCovers [] s ↔ Parked s :=
+  parked_iff_pendingCovers_nil s
+
+/-- `PendingCovers W` is kept by every index operation that only removes heads, makes instances leave the listening
+    statuses, or moves / creates heads that are in `W` (`CovOp W`) — for every state, guard or not. -/
+theorem pending_covers_kept_by_worklist_operations (W : List Key) (s : VM) (op : Op) (hg : op.guard s.ixs.ix = true)
+    (h : PendingCovers W s) (hop : CovOp W op) : PendingCovers W { s with ixs := s.ixs.apply op hg } :=
+  (covInv W).step s op hg h hop
+
+/-- non-vacuity: the empty state satisfies `PendingCovers W`, and `dropHeads` is a `CovOp` -/
+example (W : List Key) (p : Prog) : PendingCovers W ({ r := { prog := p } } : VM) := by
+  intro i hi; cases hi
+example (W : List Key) (f : FUid) : CovOp W (.dropHeads f) := trivial
+
+/-- `_abort_flow` keeps `PendingCovers W` for every worklist `W`, on every outcome -/
+theorem abort_flow_keeps_pending_covers (W : List Key) (fuel : Nat) (f : FUid) (sc : List Score) (d : Bool) :
+    Keeps (covInv W) (abortFlow fuel f sc d) := abortFlow_pendingCovers W fuel f sc d
+
+/-- the head setters keep `PendingCovers W` for heads of the worklist (or a head that becomes INACTIVE) -/
+theorem head_setters_keep_pending_covers (W : List Key) (k : Key) (hk : k ∈ W) (p : Nat) (st : HeadStatus) :
+    Keeps (covInv W) (setHeadPos k p) ∧ Keeps (covInv W) (setHeadStatus k st) :=
+  ⟨setHeadPos_pendingCovers W k p hk, setHeadStatus_pendingCovers W k st (Or.inl hk)⟩
 
 /-
   T2 (partially proved; kept as the target statement):
